@@ -1592,6 +1592,13 @@ func (fx *FnExec) makeInterface(fr *frame, st *State, t types.Type, v Val) Val {
 			fx.escapeRef(st, x.Ref)
 			return IfaceV{tag, x.Ref}
 		}
+		if x.Kind == PField {
+			// pointer to a non-object field: the interface value keeps an abstract identity fld|T|f(object)
+			// (usable as a key in ghost state; the field itself is not reachable through it in the model)
+			fx.note("pointer to a field boxed into an interface: identity kept (fld|T|f), target not reachable through the interface in the model")
+			stt := under(x.StructT).(*types.Struct)
+			return IfaceV{tag, c.App("fld|"+typeKey(x.StructT)+"|"+stt.Field(x.Field).Name(), RefSort, x.Ref)}
+		}
 		fx.drop("interior pointer boxed into an interface (identity lost)")
 		return IfaceV{tag, c.Fresh("ibox", RefSort)}
 	case *Term:
